@@ -93,6 +93,11 @@ class Other:
 
 
 @dataclass(frozen=True)
+class U16:            # the bytes of char.encode("utf-16-be"): a sequence of 16-bit code units (big-endian, 2 bytes each)
+    units: tuple
+
+
+@dataclass(frozen=True)
 class Str:            # a string built from pieces (value of a string-typed local or helper result)
     pieces: tuple
 
@@ -241,6 +246,85 @@ class LoopAnalyser:
             for e in n.elts:
                 cur = [(c2, vs + (v,)) for c, vs in cur for c2, v in self.ev(e, c, env)]
             return cur
+        if isinstance(n, ast.Call) and isinstance(n.func, ast.Attribute) and n.func.attr == "encode" and n.args \
+                and isinstance(n.args[0], ast.Constant) and isinstance(n.args[0].value, str) \
+                and n.args[0].value.lower().replace("_", "-") in ("utf-16-be", "utf-16be"):
+            # UTF-16 (big-endian, no BOM) bytes of the character: one code unit in the BMP, the surrogate pair beyond it
+            out = []
+            for c, v in self.ev(n.func.value, cps, env):
+                if not isinstance(v, Char):
+                    out.append((c, Other(unparse(n), self._depends(n, env))))
+                    continue
+                bmp = inter(c, ((0, 0xFFFF),))
+                astral = minus(c, ((0, 0xFFFF),))
+                if bmp:
+                    out.append((bmp, U16((Lin(1, 0),))))
+                if astral:
+                    off = Lin(1, -0x10000)
+                    hi = self._arith(ast.Add(), 0xD800, self._arith(ast.RShift(), off, 10, astral, n), astral, n)
+                    lo = self._arith(ast.Add(), 0xDC00, self._arith(ast.BitAnd(), off, 0x3FF, astral, n), astral, n)
+                    out.append((astral, U16((hi, lo))))
+            return out
+        if isinstance(n, ast.Call) and isinstance(n.func, ast.Name) and n.func.id == "len" and len(n.args) == 1 and "len" not in env:
+            out = []
+            for c, v in self.ev(n.args[0], cps, env):
+                if isinstance(v, U16):
+                    out.append((c, 2 * len(v.units)))
+                elif isinstance(v, (tuple, str)):
+                    out.append((c, len(v)))
+                else:
+                    out.append((c, Other(unparse(n), self._depends(n, env))))
+            return out
+        if isinstance(n, ast.Call) and isinstance(n.func, ast.Name) and n.func.id == "range" and 1 <= len(n.args) <= 3 \
+                and not n.keywords and "range" not in env:
+            cur = [(cps, ())]
+            for a in n.args:
+                cur = [(c2, vs + (v,)) for c, vs in cur for c2, v in self.ev(a, c, env)]
+            out = []
+            for c, vs in cur:
+                if all(isinstance(v, int) and not isinstance(v, bool) for v in vs) and (len(vs) < 3 or vs[2] != 0) and len(range(*vs)) <= 16:
+                    out.append((c, tuple(range(*vs))))
+                else:
+                    out.append((c, Other(unparse(n), self._depends(n, env))))
+            return out
+        if isinstance(n, ast.Call) and isinstance(n.func, ast.Attribute) and n.func.attr == "from_bytes" \
+                and isinstance(n.func.value, ast.Name) and n.func.value.id == "int" and n.args:
+            order = n.args[1] if len(n.args) > 1 else next((k.value for k in n.keywords if k.arg == "byteorder"), None)
+            signed = next((k.value for k in n.keywords if k.arg == "signed"), None)
+            out = []
+            for c, v in self.ev(n.args[0], cps, env):
+                if isinstance(v, U16) and len(v.units) == 1 and isinstance(order, ast.Constant) and order.value == "big" and signed is None:
+                    out.append((c, v.units[0]))
+                else:
+                    out.append((c, Other(unparse(n), self._depends(n, env))))
+            return out
+        if isinstance(n, ast.Subscript):
+            out = []
+            if isinstance(n.slice, ast.Slice):
+                if n.slice.step is not None:
+                    return [(cps, Other(unparse(n), self._depends(n, env)))]
+                lows = self.ev(n.slice.lower, cps, env) if n.slice.lower is not None else [(cps, 0)]
+                for c1, lo in lows:
+                    ups = self.ev(n.slice.upper, c1, env) if n.slice.upper is not None else [(c1, None)]
+                    for c2, hi in ups:
+                        for c3, v in self.ev(n.value, c2, env):
+                            if isinstance(v, U16) and isinstance(lo, int) and (hi is None or isinstance(hi, int)):
+                                top = 2 * len(v.units) if hi is None else min(hi, 2 * len(v.units))
+                                if lo >= 0 and top >= lo and lo % 2 == 0 and top % 2 == 0:
+                                    out.append((c3, U16(v.units[lo // 2: top // 2])))
+                                    continue
+                            if isinstance(v, (tuple, str)) and isinstance(lo, int) and (hi is None or isinstance(hi, int)):
+                                out.append((c3, v[lo:hi]))
+                                continue
+                            out.append((c3, Other(unparse(n), self._depends(n, env))))
+                return out
+            for c1, idx in self.ev(n.slice, cps, env):
+                for c2, v in self.ev(n.value, c1, env):
+                    if isinstance(v, (tuple, str)) and isinstance(idx, int) and not isinstance(idx, bool) and -len(v) <= idx < len(v):
+                        out.append((c2, v[idx]))
+                    else:
+                        out.append((c2, Other(unparse(n), self._depends(n, env))))
+            return out
         if isinstance(n, ast.Call) and isinstance(n.func, ast.Name) and n.func.id == "divmod" and len(n.args) == 2 \
                 and not n.keywords and "divmod" not in env:
             q = ast.copy_location(ast.BinOp(left=n.args[0], op=ast.FloorDiv(), right=n.args[1]), n)
